@@ -2,7 +2,7 @@
 # tools/seedproc.sh <Cxx> [seed-name]  -- verify a sub-agent's seeded change in a fresh scratch worktree and run the check on it
 set -u
 P=$1; NAME=${2:-$1-a}
-SRC=/tmp/wt/$P/_seed
+SRC=${3:-/tmp/wt/$P/_seed}
 DST=/verif/seeded/$NAME
 [ -f $SRC/patch.diff ] || { echo "no patch in $SRC"; exit 2; }
 mkdir -p $DST && cp $SRC/patch.diff $SRC/demo.py $DST/ && cp $SRC/NOTES.md $DST/NOTES.md 2>/dev/null
